@@ -32,7 +32,8 @@ impl NetworkFilter {
 
 // ---- NetworkFilterList / RegexManager: abstract views -------------------------------------------
 pub struct RegexManager { pub x: u8 }
-pub struct RegexManagerCell { pub x: u8 }
+// the regex cache behind its cell: what matters here is only whether it holds anything (entries are keyed by filter ADDRESS)
+pub struct RegexManagerCell { pub holds_regexes: Ghost<bool> }
 
 pub struct NetworkFilterList { pub ghost_filters: Ghost<Seq<NetworkFilter>>, pub ghost_optimized: Ghost<bool> }
 
@@ -45,6 +46,11 @@ impl NetworkFilterList {
     pub fn new(filters: Vec<NetworkFilter>, optimize: bool) -> (r: NetworkFilterList)
         ensures r.filters() == filters@, r.optimized() == optimize
     { unimplemented!() }
+
+    // T (here): fusing rebuilds the buckets: every filter object is a new allocation afterwards (units c05_*, c09_order carry what the
+    // rebuilt list contains)
+    #[verifier::external_body]
+    pub fn optimize(&mut self) { unimplemented!() }
 
     // T (here): adding to the index appends to the set of rules held (C01 units)
     #[verifier::external_body]
@@ -215,7 +221,10 @@ fn vf_collect_badfilter_ids(badfilters: &Vec<&NetworkFilter>) -> (r: HashSet<Has
 }
 
 #[verifier::external_body]
-fn vf_default_regex_manager() -> RegexManagerCell { unimplemented!() }
+fn vf_default_regex_manager() -> (r: RegexManagerCell) ensures !r.holds_regexes@ { unimplemented!() }
+// R6: `self.borrow_regex_manager().clear()` with `&mut self` at hand: the cell's manager forgets every compiled regex
+#[verifier::external_body]
+fn vf_clear_regex_cache(cell: &mut RegexManagerCell) ensures !final(cell).holds_regexes@ { unimplemented!() }
 
 impl Blocker {
 //@EXTRACT src/blocker.rs :: impl Blocker :: fn new
@@ -403,7 +412,14 @@ impl Blocker {
         final(self).tags_enabled@ == tags_enabled@, // OBL C07.tags_with_set.assign
         final(self).filters_tagged.filters() == old(self).tagged_filters_all@.filter(|n: NetworkFilter| n.tag is Some && tags_enabled@.contains(n.tag->Some_0)), // OBL C07.tags_with_set.active
         same_rules_except_tagged(*old(self), *final(self)), // OBL C07.tags_with_set.frame
+        // the tagged list is rebuilt from fresh allocations: no regex compiled for a freed filter may stay cached under its address
+        !final(self).regex_manager.holds_regexes@, // OBL C06.cache.cleared_on_tag_switch
 //@ ENDSPEC
+//@ SUBST R6
+    self.borrow_regex_manager().clear();
+//@ WITH
+    vf_clear_regex_cache(&mut self.regex_manager);
+//@ ENDSUBST
 //@ SUBST R6
         self
             .tagged_filters_all
@@ -429,6 +445,22 @@ impl Blocker {
     fn vf_tag_difference(&self, tags: &[&str]) -> (r: HashSet<String>)
         ensures forall|t: String| r@.contains(t) <==> (self.tags_enabled@.contains(t) && !exists|i: int| 0 <= i < tags@.len() && (#[trigger] tags@[i])@ == t@)
     { unimplemented!() }
+
+//@EXTRACT src/blocker.rs :: impl Blocker :: fn optimize
+//@ SAFETY C06.optimize.safety
+//@ SPEC
+    ensures
+        // "the removeparam list is never optimised"
+        final(self).removeparam == old(self).removeparam, // OBL C05.optimize.removeparam_untouched
+        // every optimised list is rebuilt from fresh allocations: no regex compiled for a freed filter may stay cached under its address
+        !final(self).regex_manager.holds_regexes@, // OBL C06.cache.cleared_on_optimize
+//@ ENDSPEC
+//@ SUBST R6
+    self.borrow_regex_manager().clear();
+//@ WITH
+    vf_clear_regex_cache(&mut self.regex_manager);
+//@ ENDSUBST
+//@END
 
 //@EXTRACT src/blocker.rs :: impl Blocker :: fn use_tags
 //@ SAFETY C07.use_tags.safety
